@@ -71,6 +71,14 @@ TBadPointer == /\ Decoding /\ e.op = "u8" /\ e.v >= 192 /\ Has(2) /\ Nxt(1).op =
                /\ C("PointerRead", CanRead(2) /\ Nxt(1).pos = pos + 1 /\ Nxt(1).v = At(buf, pos + 1))
                /\ C("RefusedPointerIsNotBackwards", Target >= lowest)
                /\ FailPointer /\ Adv(2) /\ UNCHANGED wtable
+(* after the name is complete the decoder may reposition the parser (to resume after the name:
+   where it ends up is judged by `Consumed`); while decoding, a seek only ever follows a pointer *)
+TResume == /\ Decoding /\ e.op = "seek" /\ ~Running
+           /\ C("ResumeSeekOk", e.ok)
+           /\ Adv(1) /\ UNCHANGED <<dvars, wtable>>
+TStraySeek == /\ Decoding /\ e.op = "seek" /\ Running
+              /\ C("SeekOnlyFollowsPointer", FALSE)
+              /\ UNCHANGED tvars
 (* result of from_wire_parser (through the recording parser) and of dns.name.from_wire *)
 TEnd == /\ Decoding /\ e.op = "end"
         /\ C("DecoderFinished", ~Running)
@@ -117,7 +125,7 @@ TPlain ==
     /\ Adv(1) /\ UNCHANGED <<dvars, wtable>>
 
 TraceNext == /\ l <= Len(Ev(t))
-             /\ \/ TLabel \/ TPointer \/ TRoot \/ TTruncCount \/ TTruncLabel \/ TTruncPointer \/ TBadType \/ TTypeAccepted \/ TBadPointer \/ TEnd
+             /\ \/ TLabel \/ TPointer \/ TRoot \/ TTruncCount \/ TTruncLabel \/ TTruncPointer \/ TBadType \/ TTypeAccepted \/ TBadPointer \/ TResume \/ TStraySeek \/ TEnd
                 \/ TWrite \/ TPlain
 Accepted == Accepting(t, l)
 =============================================================================
